@@ -810,10 +810,6 @@ fn is_close_together(range1: &Range<u64>, range2: &Range<u64>, block_size: u64) 
     range2.start <= (range1.end + block_size)
 }
 
-fn is_overlapping(range1: &Range<u64>, range2: &Range<u64>) -> bool {
-    range1.start < range2.end && range2.start < range1.end
-}
-
 impl FileScheduler {
     /// Submit a batch of I/O requests to the reader
     ///
@@ -878,48 +874,41 @@ impl FileScheduler {
             self.root
                 .submit_request(self.reader.clone(), updated_requests.clone(), priority);
 
-        let mut updated_index = 0;
         let mut final_bytes = Vec::with_capacity(request.len());
 
         async move {
             let bytes_vec = bytes_vec_fut.await?;
 
-            let mut orig_index = 0;
-            while (updated_index < updated_requests.len()) && (orig_index < request.len()) {
-                let updated_range = &updated_requests[updated_index];
-                let orig_range = &request[orig_index];
-                let byte_offset = updated_range.start as usize;
-
-                if is_overlapping(updated_range, orig_range) {
-                    // We need to undo the coalescing and splitting done earlier
-                    let start = orig_range.start as usize - byte_offset;
-                    if orig_range.end <= updated_range.end {
-                        // The original range is fully contained in the updated range, can do
-                        // zero-copy slice
-                        let end = orig_range.end as usize - byte_offset;
-                        final_bytes.push(bytes_vec[updated_index].slice(start..end));
-                    } else {
-                        // The original read was split into multiple requests, need to copy
-                        // back into a single buffer
-                        let orig_size = orig_range.end - orig_range.start;
-                        let mut merged_bytes = Vec::with_capacity(orig_size as usize);
-                        merged_bytes.extend_from_slice(&bytes_vec[updated_index].slice(start..));
-                        let mut copy_offset = merged_bytes.len() as u64;
-                        while copy_offset < orig_size {
-                            updated_index += 1;
-                            let next_range = &updated_requests[updated_index];
-                            let bytes_to_take =
-                                (orig_size - copy_offset).min(next_range.end - next_range.start);
-                            merged_bytes.extend_from_slice(
-                                &bytes_vec[updated_index].slice(0..bytes_to_take as usize),
-                            );
-                            copy_offset += bytes_to_take;
-                        }
-                        final_bytes.push(Bytes::from(merged_bytes));
-                    }
-                    orig_index += 1;
+            // Undo the coalescing and splitting done earlier: every requested range gets exactly
+            // one buffer.  `updated_requests` is sorted and disjoint when `request` is sorted by start.
+            for orig_range in &request {
+                if orig_range.is_empty() {
+                    final_bytes.push(Bytes::new());
+                    continue;
+                }
+                // First read that ends after the start of the original range
+                let mut updated_index =
+                    updated_requests.partition_point(|u| u.end <= orig_range.start);
+                let first = &updated_requests[updated_index];
+                let start = (orig_range.start - first.start) as usize;
+                if orig_range.end <= first.end {
+                    // The original range is fully contained in one read, can do zero-copy slice
+                    let end = (orig_range.end - first.start) as usize;
+                    final_bytes.push(bytes_vec[updated_index].slice(start..end));
                 } else {
-                    updated_index += 1;
+                    // The original read was split into multiple requests, need to copy
+                    // back into a single buffer
+                    let orig_size = (orig_range.end - orig_range.start) as usize;
+                    let mut merged_bytes = Vec::with_capacity(orig_size);
+                    merged_bytes.extend_from_slice(&bytes_vec[updated_index].slice(start..));
+                    while merged_bytes.len() < orig_size {
+                        updated_index += 1;
+                        let bytes_to_take =
+                            (orig_size - merged_bytes.len()).min(bytes_vec[updated_index].len());
+                        merged_bytes
+                            .extend_from_slice(&bytes_vec[updated_index].slice(0..bytes_to_take));
+                    }
+                    final_bytes.push(Bytes::from(merged_bytes));
                 }
             }
 
